@@ -130,6 +130,12 @@ def instantiate(terms, rounds=5, templates=None):
     work = list(terms)
     terms_pos = terms
     persist = {}
+    top_level = set()
+    for t in terms[:-1]:
+        if t.op == "#forall":
+            top_level.add(str(t))
+        elif t.op == "and":
+            top_level.update(str(a) for a in t.args if a.op == "#forall")
     for rnd in range(rounds):
         allsub = {}
         for t in work:
@@ -212,6 +218,11 @@ def instantiate(terms, rounds=5, templates=None):
             es = list(exts.values())[:12]
             for e1 in es:
                 a1, n1 = e1.args[1], e1.args[2]
+                k0 = ("split0", str(h.of(e1)))
+                if k0 not in done_other and a1.op == "#int" and a1.val == 0 and rnd <= 1:
+                    done_other.add(k0)
+                    # prefix split of the base: s = s[:n] ++ s[n:]
+                    new.append(Implies(And(Le(I(0), n1), Le(n1, Len(s))), Eq(h.of(s), h.plus(h.of(e1), h.of(Extract(s, n1, Sub(Len(s), n1)))))))
                 k = ("part", str(h.of(e1)))
                 if k not in done_other and not (a1.op == "#int" and a1.val == 0):
                     done_other.add(k)
@@ -501,7 +512,9 @@ def instantiate(terms, rounds=5, templates=None):
                         continue
                     done_other.add(kk)
                     m = {kv.args[0]: c}
-                    new.append(Implies(t, Implies(subst(rng, m), subst(body, m))))
+                    inst_body = Implies(subst(rng, m), subst(body, m))
+                    # a universally quantified formula that is itself an assumption needs no guard
+                    new.append(inst_body if str(t) in top_level else Implies(t, inst_body))
         added = [t for t in new if add(t)]
         if not added:
             break
